@@ -4,13 +4,6 @@ From CCT Require Import Prelude Hex Num Time Formats Json Auth.
 From CCT.Gen Require Params.
 Open Scope N_scope.
 
-(* d[k] = v : replace in place if present, else append *)
-Fixpoint dset (m : list (pv * pv)) (k : ustr) (v : pv) : list (pv * pv) :=
-  match m with
-  | [] => [(VStr k, v)]
-  | (x, y) :: r => if key_is k x then (x, v) :: r else (x, y) :: dset r k v
-  end.
-
 Definition is_key (v : pv) : bool := match v with VPub _ | VPriv _ => true | _ => false end.
 Definition checkformat_key (v : pv) : res unit := if is_key v then Ok tt else Err TypeError.
 
